@@ -237,7 +237,7 @@ func Run(r *ev.Run) {
 	r.Extra("exhaustive_programs", nexh)
 	r.Extra("exhaustive_max_stream_len", maxLen)
 	r.Exhaustive(false) // only the bounded sub-space above is exhaustive; the random part is sampled
-	nrand := r.N(20000, 1500000)
+	nrand := r.N(100000, 1500000)
 	for i := 0; i < nrand; i++ {
 		id := fmt.Sprintf("c17/rnd/%d", i)
 		if !r.Want(id) {
